@@ -335,6 +335,11 @@ func (s *Swarm[T]) handleAsks(ctx context.Context, sess quic.Connection, srcAddr
 
 func (s *Swarm[T]) handleAsk(ctx context.Context, stream quic.Stream, srcAddr, dstAddr Addr[T]) error {
 	log := s.log.With(logctx.Any("remote_addr", srcAddr))
+	if !s.allowFunc(srcAddr) {
+		// sessions we dialed ourselves never passed the whitelist in serve()
+		stream.CancelRead(1)
+		return stream.Close()
+	}
 	reqData := make([]byte, s.mtu)
 	n, err := readFrame(stream, reqData, s.mtu)
 	if err != nil {
@@ -367,6 +372,11 @@ func (s *Swarm[T]) handleTells(ctx context.Context, sess quic.Connection, srcAdd
 			return err
 		}
 		go func() {
+			if !s.allowFunc(srcAddr) {
+				// sessions we dialed ourselves never passed the whitelist in serve()
+				stream.CancelRead(1)
+				return
+			}
 			lr := io.LimitReader(stream, int64(s.mtu))
 			data, err := io.ReadAll(lr)
 			if err != nil {
